@@ -74,7 +74,16 @@ TrGenerated == /\ IsEvent("generated")
                /\ UNCHANGED <<cur, refbad>>
 TrCompiled == /\ IsEvent("compiled")
               /\ st' = [st EXCEPT !.comp = IF ev.ok THEN "ok" ELSE "fail"]
-              /\ IF P = "C01" /\ ~ev.ok THEN Report({V("compiles", "emitted file", "rustc ok", IF Len(ev.errors) > 0 THEN ev.errors[1] ELSE "error")}) ELSE TRUE
+              \* "D34" (as built): every binding writes the envelope types of its operations; two bindings of one port type
+              \* (SOAP 1.1 and 1.2) define each of them twice (E0428, E0119)
+              /\ LET two == cur.case.kind = "wsdl" /\ "second_binding" \in DOMAIN cur.case.files[1].wsdl
+                     pred == "D34" \in Dev /\ two
+                     v == V("compiles", "emitted file", "rustc ok", IF Len(ev.errors) > 0 THEN ev.errors[1] ELSE "error")
+                 IN IF P # "C01" THEN TRUE
+                    ELSE IF ev.ok THEN (pred => PrintT(<<"STALE", ToJson(V("compiles", "emitted file", "E0428 (D34)", "rustc ok"))>>))
+                    ELSE IF pred /\ \A i \in 1..Len(ev.errors) : SubSeq(ev.errors[i], 1, 5) \in {"E0428", "E0119"}
+                         THEN PrintT(<<"KNOWN", ToJson(v @@ [devs |-> {"D34"}])>>)
+                    ELSE Report({v})
               /\ Count1 /\ UNCHANGED <<cur, refbad>>
 TrDriver == /\ IsEvent("driver_compiled")
             /\ st' = [st EXCEPT !.drv = IF ev.ok THEN "ok" ELSE "fail"]
